@@ -53,6 +53,7 @@ def make_params(ex: Exec, c: Contract, node) -> dict:
             out[nm] = t.obj
             continue
         v = ex.fresh(nm, t)
+        ex.assume_enum_members(v)
         for s in _seqs_in(v):
             ex.assume(s.length >= 0)
         out[nm] = ex.force(v)
@@ -127,7 +128,12 @@ def run_function(world: World, c: Contract) -> tuple[Exec, FnResult]:
         cx2.env = env
         if exc is None:
             for nm, f in c.ensures:
-                ex.oblige(f"{c.fid}#post:{nm}", "post", f(cx2))
+                r = f(cx2)
+                if isinstance(r, list):  # a clause may return several named conjuncts
+                    for sub, g in r:
+                        ex.oblige(f"{c.fid}#post:{nm}.{sub}", "post", g)
+                else:
+                    ex.oblige(f"{c.fid}#post:{nm}", "post", r)
         else:
             if c.raises is not None:
                 ok = any(exc_is(exc, r) for r in c.raises)
